@@ -537,3 +537,160 @@ def run(ck):
                        ' [a layout edit that keeps the length of the .ui must still replace the file]')
     c15.run(s15)
     ck.floor('R12.7', s3.count + s1.count + s15.count, 20, 'shared C03 R3.4 / C01 R1.2 / C15 R15.4-5 obligations')
+
+    # ---- R12.8 the cursor wraps modulo the flow's count: the count a flow is built with is at least 1 ----------------------------------------
+    ck.rule('R12.8', 'every divisor of the cursor arithmetic is a flow count, and no flow is built with a count below 1')
+    flow_counts_positive(ck, L, 'R12.8')
+
+
+class _LB:
+    """lower bounds of integer expressions, read backwards from a use (literals, constants, let chains, local closures, Option plumbing and
+    the comparisons that dominate the use). None = not known."""
+
+    def __init__(self, L):
+        self.L = L
+        from aeval import Interp
+        self.I = Interp(L)
+
+    def const(self, e):
+        e = H.strip_refs(e)
+        if e.get('k') == 'Lit' and isinstance(e.get('v'), int):
+            return e['v']
+        if e.get('k') == 'Unary' and e.get('op') == 'Neg':
+            v = self.const(e['e'])
+            return -v if v is not None else None
+        if e.get('k') == 'Path' and e.get('dk') in ('Const', 'AssocConst'):
+            try:
+                v = self.I.const_value(e['def'])
+            except Exception:  # noqa
+                return None
+            return v if isinstance(v, int) and not isinstance(v, bool) else None
+        return None
+
+    def guards(self, fn, site, hid):
+        """the greatest lower bound the conditions around site give the local hid"""
+        lb = None
+        for a in H.ancestors(fn, site):
+            if a.get('k') != 'If' or a['c'].get('k') != 'Binary':
+                continue
+            c = a['c']
+            in_then = any(x is site for x in walk(a['then']))
+            in_else = 'els' in a and any(x is site for x in walk(a['els']))
+            l, r = H.strip_refs(c['l']), H.strip_refs(c['r'])
+            op = c['op']
+            if r.get('k') == 'Path' and r.get('hid') == hid and l.get('hid') != hid:
+                l, r = r, l
+                op = {'Lt': 'Gt', 'Le': 'Ge', 'Gt': 'Lt', 'Ge': 'Le'}.get(op, op)
+            if not (l.get('k') == 'Path' and l.get('hid') == hid):
+                continue
+            k = self.const(r)
+            if k is None:
+                continue
+            b = None
+            if in_then:
+                b = {'Gt': k + 1, 'Ge': k, 'Eq': k}.get(op)
+            elif in_else:
+                b = {'Le': k + 1, 'Lt': k}.get(op)
+            if b is not None and (lb is None or b > lb):
+                lb = b
+        return lb
+
+    def lb(self, fn, e, depth=0):
+        if depth > 20:
+            return None
+        e = H.strip_refs(e)
+        k = e.get('k')
+        c = self.const(e)
+        if c is not None:
+            return c
+        if k == 'Path' and e.get('res') == 'local':
+            g = self.guards(fn, e, e['hid'])
+            b = H.binding_sites(fn).get(e['hid'])
+            v = None
+            if b is not None and b['kind'] == 'let' and b['pat'].get('k') == 'Bind' and b['node'].get('init') is not None and \
+                    not any(n.get('k') in ('Assign', 'AssignOp') and H.strip_refs(n['l']).get('hid') == e['hid'] for n in walk(fn['body'])):
+                v = self.lb(fn, b['node']['init'], depth + 1)
+            cands = [x for x in (g, v) if x is not None]
+            return max(cands) if cands else None
+        if k in ('Block', 'If', 'Match'):
+            vals = [self.lb(fn, v, depth + 1) for v in H.value_exprs(e) if not H.diverges_always(v)]
+            return None if not vals or any(v is None for v in vals) else min(vals)
+        if k == 'Call' and e['f'].get('k') == 'Path' and e['f'].get('res') == 'local':
+            b = H.binding_sites(fn).get(e['f']['hid'])
+            cl = H.strip_refs(b['node']['init']) if b is not None and b['kind'] == 'let' and b['node'].get('init') is not None else None
+            if cl is not None and cl.get('k') == 'Closure':
+                return self.lb(fn, cl['body'], depth + 1)
+            return None
+        if k == 'MCall' and e.get('m') == 'unwrap_or' and len(e['args']) == 1:
+            a, s = self.lb(fn, e['args'][0], depth + 1), self.lb_some(fn, e['recv'], depth + 1)
+            return None if a is None or s is None else min(a, s)
+        if k == 'MCall' and e.get('m') in ('max',) and len(e['args']) == 1:
+            a, s = self.lb(fn, e['args'][0], depth + 1), self.lb(fn, e['recv'], depth + 1)
+            cands = [x for x in (a, s) if x is not None]
+            return max(cands) if cands else None
+        return None
+
+    def lb_some(self, fn, e, depth=0):
+        """lower bound of the payload whenever the Option e is Some"""
+        e = H.strip_refs(e)
+        if e.get('k') == 'MCall' and e.get('m') in ('and_then', 'map', 'filter_map') and e['args'] and H.strip_refs(e['args'][0]).get('k') == 'Closure':
+            cl = H.strip_refs(e['args'][0])
+            out = []
+            for v in H.value_exprs(cl['body']):
+                v = H.strip_refs(v)
+                if H.diverges_always(v) or (v.get('k') == 'Path' and (v.get('def') or '').endswith('Option::None')):
+                    continue
+                if e['m'] == 'map':
+                    out.append(self.lb(fn, v, depth + 1))
+                elif v.get('k') == 'Call' and (v.get('def') or '').endswith('Option::Some') and len(v['args']) == 1:
+                    out.append(self.lb(fn, v['args'][0], depth + 1))
+                else:
+                    out.append(None)
+            return None if not out or any(x is None for x in out) else min(out)
+        if e.get('k') == 'Call' and (e.get('def') or '').endswith('Option::Some') and len(e['args']) == 1:
+            return self.lb(fn, e['args'][0], depth + 1)
+        return None
+
+
+def flow_counts_positive(ck, L, rule):
+    fns = [f for f in L.fn_list if f['path'].startswith('uigen::layout::') and f.get('body') is not None and f.get('dk') in ('Fn', 'AssocFn')]
+    divisors = set()
+    n_div = 0
+    for fn in fns:
+        for n in walk(fn['body']):
+            if not (n.get('k') in ('Binary', 'AssignOp') and n.get('op') in ('Rem', 'Div') and 'i32' == (L.ty(n['r']) or '')):
+                continue
+            n_div += 1
+            r = H.strip_refs(n['r'])
+            b = H.binding_sites(fn).get(r.get('hid')) if r.get('k') == 'Path' and r.get('res') == 'local' else None
+            src = None
+            if b is not None and b['kind'] in ('arm', 'letcond'):
+                for p in walk(b['pat']):
+                    if p.get('k') == 'PStruct' and 'LayoutFlow::' in (p.get('def') or ''):
+                        for f_ in p.get('fields', []):
+                            if any(x.get('hid') == r['hid'] for x in H.pat_bindings(f_['p'])):
+                                src = (p['def'].split('::')[-1], f_['f'])
+            lit = _LB(L).const(r)
+            ok = src is not None or (lit is not None and lit != 0)
+            if src:
+                divisors.add(src)
+            ck.ob(rule, 'divisor-is-a-flow-count|%s|%s' % (short(fn['path']), pp(n, maxlen=40)), ok, L.loc(n),
+                  'the divisor is %s' % ('%s::%s' % src if src else 'the constant %s' % lit) if ok else 'the divisor `%s` is neither a count of the flow nor a non-zero constant' % pp(r, maxlen=30), fn=fn['path'])
+    ck.floor(rule, n_div, 2, 'divisions in uigen::layout')
+    ev = _LB(L)
+    n_ctor = 0
+    for fn in L.fn_list:
+        if fn.get('body') is None or fn.get('dk') not in ('Fn', 'AssocFn'):
+            continue
+        for n in walk(fn['body']):
+            if n.get('k') == 'Struct' and 'uigen::layout::LayoutFlow::' in (n.get('def') or ''):
+                var = n['def'].split('::')[-1]
+                for f_ in n.get('fields', []):
+                    if (var, f_['f']) not in divisors:
+                        continue
+                    n_ctor += 1
+                    lb = ev.lb(fn, f_['e'])
+                    ck.ob(rule, 'count-at-least-one|%s|%s::%s' % (short(fn['path']), var, f_['f']), lb is not None and lb >= 1, L.loc(n),
+                          'every value that reaches %s is at least %s' % (f_['f'], lb) if lb is not None and lb >= 1 else
+                          '%s can be %s: the cursor divides by it (a zero count aborts the run; no form, no diagnostic)' % (f_['f'], 'as low as %d' % lb if lb is not None else 'any value (lower bound not established)'), fn=fn['path'])
+    ck.floor(rule, n_ctor, 2, 'constructions of a LayoutFlow with a count')
